@@ -221,6 +221,9 @@ func (mp *MapV) reindex() {
 }
 
 func (mp *MapV) set(m *Machine, k, v Value) {
+	if m != nil {
+		m.touchObj(mp)
+	}
 	if i := mp.find(m, k); i >= 0 {
 		mp.Vals[i] = v
 		return
@@ -240,6 +243,9 @@ func (mp *MapV) set(m *Machine, k, v Value) {
 }
 
 func (mp *MapV) del(m *Machine, k Value) {
+	if m != nil {
+		m.touchObj(mp)
+	}
 	i := mp.find(m, k)
 	if i < 0 {
 		return
